@@ -220,8 +220,8 @@ func TestVerif_C20_Handshake(t *testing.T) {
 		}
 
 		var tampers []string
-		effective := 0              // number of effective alterations
-		var altered [4]bool         // altered[k]: act k was delivered different from what was sent
+		effective := 0      // number of effective alterations
+		var altered [4]bool // altered[k]: act k was delivered different from what was sent
 
 		noncePool := func(own uint64) []uint64 {
 			p := []uint64{own, a, b, own + 1, own - 1, own ^ delta, a ^ delta, b ^ delta, 0, ^uint64(0)}
